@@ -344,7 +344,7 @@ def mentions(e, pred):
 
 
 def mentions_field(e, name, adt=None):
-    return mentions(e, lambda x: x[0] == "field" and x[2] == name and (adt is None or x[3] == adt))
+    return mentions(e, lambda x: len(x) > 3 and x[0] == "field" and x[2] == name and (adt is None or x[3] == adt))
 
 
 def mentions_param(e, k):
